@@ -203,8 +203,16 @@ def check(idx: Index, rep: Report, tier: str) -> str:
         if not gs:
             bad = "unconditionally"
         for t, pol in gs:
-            disj = t.values if (pol and isinstance(t, ast.BoolOp) and isinstance(t.op, ast.Or)) else [t]
-            for d in disj:
+            while isinstance(t, ast.UnaryOp) and isinstance(t.op, ast.Not):
+                t, pol = t.operand, not pol
+            # a disjunction of alternatives: `a or b` taken, or `a and b` refused (not a or not b)
+            if isinstance(t, ast.BoolOp) and ((pol and isinstance(t.op, ast.Or)) or ((not pol) and isinstance(t.op, ast.And))):
+                disj = [(v_, pol) for v_ in t.values]
+            else:
+                disj = [(t, pol)]
+            for d, pol in disj:
+                while isinstance(d, ast.UnaryOp) and isinstance(d.op, ast.Not):
+                    d, pol = d.operand, not pol
                 dt = unparse(d)
                 okd = (pol and dt == f"{mapn} is None") or ((not pol) and dt in (f"{mapn} is not None", mapn)) or (pol and dt == f"not {mapn}") or (pol and "is_identity" in dt) or (pol and re.search(r"== AffineMap\.identity\(", dt))
                 if not okd:
